@@ -2,6 +2,7 @@
 package consensus
 
 import (
+	"errors"
 	"io"
 
 	auto "github.com/lianxiangcloud/linkchain/libs/autofile"
@@ -30,7 +31,7 @@ import (
 //verif:filestub (*github.com/lianxiangcloud/linkchain/consensus.WALDecoder).Decode => stub_c14s_decode
 
 type c14sItem struct {
-	kind   int // 0 = #ENDHEIGHT marker, 1 = another message, 2 = corrupted entry
+	kind   int // 0 = #ENDHEIGHT marker, 1 = another message, 2 = corrupted entry, 3 = torn last record (the process died while writing it)
 	height uint64
 }
 
@@ -68,8 +69,16 @@ func stub_c14s_decode(dec *WALDecoder) (*TimedWALMessage, error) {
 	case 1:
 		return &TimedWALMessage{Msg: timeoutInfo{}}, nil
 	}
+	if it.kind == 3 {
+		// what the real decoder answers for a record cut inside its length field or payload: a plain
+		// error, neither io.EOF nor a DataCorruptionError (established on the real Decode by
+		// H_C14_torn_last_record_is_never_replayed, label torn-record-is-reported-as-...)
+		return nil, c14sErrTorn
+	}
 	return nil, DataCorruptionError{io.ErrUnexpectedEOF}
 }
+
+var c14sErrTorn = errors.New("failed to read data: EOF")
 
 //verif:opt unwind=24 budget_s=600 thorough.budget_s=2400 split=12 thorough.split=24
 func H_C14_replay_start_marker_is_found_iff_present() {
@@ -99,6 +108,11 @@ func H_C14_replay_start_marker_is_found_iff_present() {
 			}
 		}
 	}
+	// the process may have died while appending a record: the newest file then ends with a torn record
+	torn := verifNondetBool()
+	if torn {
+		c14sFiles[nfiles-1] = append(c14sFiles[nfiles-1], c14sItem{kind: 3})
+	}
 	target := verifNondetUint64()
 	present := false
 	for _, file := range c14sFiles {
@@ -113,6 +127,12 @@ func H_C14_replay_start_marker_is_found_iff_present() {
 	wal.Logger = log.NewNopLogger()
 	_, found, err := wal.SearchForEndHeight(target, &WALSearchOptions{IgnoreDataCorruptionErrors: true})
 	verifReach("searched")
+	if torn {
+		verifReach("searched-a-log-with-a-torn-last-record")
+		verifAssert(err == nil, "search-does-not-fail-behind-a-torn-last-record")
+		verifAssert(found == present, "marker-found-iff-present-behind-a-torn-last-record")
+		return
+	}
 	verifAssert(err == nil, "search-does-not-fail-on-a-readable-log")
 	verifAssert(found == present, "marker-found-iff-present")
 }
